@@ -134,9 +134,23 @@ fn draws(c: &Value) -> Value {
         let lag1 = v.windows(2).map(|w| (w[0] - m) * (w[1] - m)).sum::<f64>() / (n - 1.0);
         json!({"n": v.len(), "mean": m, "msq": m2, "lag1": lag1})
     };
+    // serial dependence across steps: uniform r of step t against momentum entry r of step t+1 (a generator that is
+    // cloned instead of advanced hands the same words to both)
+    let hmc_steps: Vec<(&Vec<f64>, &Vec<f64>)> = ev.iter().filter_map(|e| match e {
+        Event::HmcStep { momenta, uniform, .. } => Some((momenta, uniform)),
+        _ => None,
+    }).collect();
+    let (mut cn, mut cs) = (0usize, 0.0f64);
+    for w in hmc_steps.windows(2) {
+        for (u, z) in w[0].1.iter().zip(w[1].0.iter()) {
+            cs += (u - 0.5) * z;
+            cn += 1;
+        }
+    }
+    let cross_next = if cn > 0 { cs / cn as f64 } else { 0.0 };
     let cross = normals.iter().zip(uniforms.iter()).map(|(a, b)| a * (b - 0.5)).sum::<f64>() / (normals.len().min(uniforms.len()).max(1) as f64);
     json!({"normals": summ(&normals), "uniforms": summ(&uniforms), "exps": if exps.is_empty() { json!(null) } else { summ(&exps) },
-           "cross": cross, "cross_n": normals.len().min(uniforms.len())})
+           "cross": cross, "cross_n": normals.len().min(uniforms.len()), "cross_next": cross_next, "cross_next_n": cn})
 }
 
 pub fn run(c: &Value) -> Value {
